@@ -28,6 +28,9 @@ type PEConfig struct {
 	BindVal func(v ssa.Value) (constant.Value, bool)
 	// StopAt ends a path when it reaches an instruction (label != "").
 	StopAt func(in ssa.Instruction) string
+	// Observe is called before each instruction with an accessor for the
+	// current abstract values (used to read folded intermediate values).
+	Observe func(in ssa.Instruction, get func(ssa.Value) constant.Value)
 	// StopAfter ends a path right after executing an instruction (label != "").
 	StopAfter func(in ssa.Instruction) string
 	// Opaque lists in-package callees that are not inlined (their result is unknown).
@@ -210,6 +213,9 @@ func (pe *pEval) run(fn *ssa.Function, st *peState, depth int, done func(s *peSt
 					return
 				}
 				in := b.Instrs[i]
+				if pe.cfg.Observe != nil {
+					pe.cfg.Observe(in, func(v ssa.Value) constant.Value { return pe.get(s, v) })
+				}
 				if pe.cfg.StopAt != nil {
 					if l := pe.cfg.StopAt(in); l != "" {
 						done(s, l, nil)
